@@ -107,11 +107,11 @@ theorem getTyped_step_other (c : C2) (key ty : Nat) (op : COp) (hl : op.leaves k
         · exact absurd rfl hl
         · exact hl
       cases hc : c.cache key with
-      | none => simp [getTyped_setCache, C2.getTyped, hc, hne]
+      | none => (rw [getTyped_setCache]; simp [C2.getTyped, hc, hne])
       | some e =>
         cases e with
-        | raw old => simp [getTyped_setCache, C2.getTyped, hc, hne]
-        | items tbl => simp [getTyped_setCache, C2.getTyped, hc, tblGet_cons, hne]
+        | raw old => (rw [getTyped_setCache]; simp [C2.getTyped, hc, hne])
+        | items tbl => (rw [getTyped_setCache]; simp [C2.getTyped, hc, tblGet_cons, hne])
     · cases hc : c.cache k with
       | none => simp only [getTyped_setCache, hk, if_false]
       | some e => cases e <;> simp only [getTyped_setCache, hk, if_false]
@@ -125,12 +125,12 @@ theorem getTyped_step_other (c : C2) (key ty : Nat) (op : COp) (hl : op.leaves k
         · exact absurd rfl hl
         · exact hl
       cases hc : c.cache key with
-      | none => simp [getTyped_setCache, C2.getTyped, hc, tblGet_cons, hne, tblGet_nil]
+      | none => (rw [getTyped_setCache]; simp [C2.getTyped, hc, tblGet_cons, hne, tblGet_nil])
       | some e =>
         cases e with
         | raw old =>
-          simp only [getTyped_setCache, if_true, tblGet_cons, hne, if_false, tblGet_nil, C2.getTyped, hc]
-        | items tbl => simp [getTyped_setCache, C2.getTyped, hc, tblGet_cons, hne]
+          (rw [getTyped_setCache]; simp [tblGet_cons, hne, tblGet_nil, C2.getTyped, hc])
+        | items tbl => (rw [getTyped_setCache]; simp [C2.getTyped, hc, tblGet_cons, hne])
     · cases hc : c.cache k with
       | none => simp only [getTyped_setCache, hk, if_false]
       | some e => cases e <;> simp only [getTyped_setCache, hk, if_false]
@@ -181,7 +181,9 @@ theorem lookupK_writeK (c : C2) (tyOf : Nat → Nat) (hinj : ∀ s t, tyOf s = t
     unfold C2.lookupK C2.writeK
     by_cases h0 : cd = 0
     · simp only [h0, if_true]
-      rw [C2.get_eq_getTyped, step_et c (.put id a)]
+      rw [C2.get_eq_getTyped]
+      have : (c.put id a).et = c.et := step_et c (.put id a)
+      rw [this]
       exact put_getTyped_self c id a
     · simp only [h0, if_false]
       exact putTyped_getTyped_self c id (tyOf (cd - 1)) a
